@@ -96,7 +96,7 @@ def load_corpus():
 # ------------------------------------------------------------------------------------------------------------------
 WHO = ["none", "half", "L", "T", "S", "X"]
 HMID = ["none", "m1", "m2", "m3", "m4"]   # m4: (L -> T) storing NO secret;     # m3: server-side listener (stored listening client id 0), target client T
-HSTATES = MSTATES
+HSTATES = MSTATES + ["aged-revoked", "aged-inactive"]   # revoked / deactivated, then the MAIN record aged out of the store (TTL)
 
 
 def O(who, mid, secret, tun=0):
@@ -161,7 +161,7 @@ def hist_valid(h):
         if st["op"] == "setm":
             if st["m"] in gone:
                 return False
-            if st["state"] == "missing":
+            if st["state"] == "missing" or st["state"].startswith("aged-"):
                 gone.add(st["m"])
         if st["op"] == "route" and not h["routing"]:
             return False
@@ -183,6 +183,13 @@ def directed_histories():
             out.append(H(False, first, O("T", "m1", "right"), SM("m1", st), O("T", "m1", "right"), O("L", "m1", "none", 1)))
     for st in HSTATES[1:4]:   # ... and back to active: must work again
         out.append(H(False, O("L", "m1", "none"), SM("m1", st), O("L", "m1", "none", 1), SM("m1", "active"), O("L", "m1", "none", 1)))
+    # a revoked / deactivated mapping that nobody touches any more until its main record ages out of the store stays unusable
+    # (the index lists keep the copy written at creation, which says "active, not revoked")
+    for st in ("aged-revoked", "aged-inactive"):
+        for again in (O("L", "m1", "none"), O("L", "m1", "right"), O("T", "m1", "right")):
+            out.append(H(False, SM("m1", st), again, dict(again, tun=1)))
+            out.append(H(False, O("L", "m1", "right"), SM("m1", st), again, dict(again, tun=1)))
+        out.append(H(True, SM("m2", st), O("S", "m2", "none"), O("X", "m2", "right"), O("L", "m1", "none")))
     # expiring in a minute is NOT expired: everything still works
     out.append(H(False, O("L", "m1", "none"), SM("m1", "soon60s"), O("L", "m1", "none", 1), O("T", "m1", "right", 1), O("T", "m1", "right")))
     # the same on a node with a routing table (the second open of a target parks instead of failing at once)
@@ -459,7 +466,7 @@ def random_history(rng, routing):
                 mid, secret = "m4", rng.choice(["none", "wrong", "wrong", "right"])
             steps.append(O(who, mid, secret, rng.choice([0, 0, 0, 1])))
         elif k < 0.82:
-            steps.append(SM(rng.choice(["m1", "m1", "m2", "m3"]), rng.choice(["active", "revoked", "expired", "inactive", "missing", "revoked", "exp25s", "exp10s", "exp2s", "exp1ms", "soon60s"])))
+            steps.append(SM(rng.choice(["m1", "m1", "m2", "m3"]), rng.choice(["active", "revoked", "expired", "inactive", "missing", "revoked", "exp25s", "exp10s", "exp2s", "exp1ms", "soon60s", "aged-revoked", "aged-inactive"])))
         elif k < 0.90 and routing:
             steps.append(RT(rng.choice([0, 0, 1]), rng.choice(["other", "other", "none", "self"]), rng.choice(["m1", "m2"])))
         elif k < 0.94:
